@@ -1,7 +1,6 @@
 package contract
 
 import (
-	"bytes"
 	"encoding/json"
 	"fmt"
 	"sort"
@@ -36,8 +35,17 @@ func replay(in *core.Lines, args []string, seed int64, sum *core.Summary) error 
 		}
 		raw := json.RawMessage(append([]byte(nil), line...))
 		salt++
+		var probe struct {
+			Meta string `json:"meta"`
+			Kind string `json:"kind"`
+		}
+		if line[0] == '{' {
+			if err := json.Unmarshal(line, &probe); err != nil {
+				return fmt.Errorf("line %d: %v", in.N, err)
+			}
+		}
 		switch {
-		case bytes.HasPrefix(line, []byte(`{"meta":"blas"`)):
+		case probe.Meta == "blas":
 			var m blasMeta
 			if err := json.Unmarshal(line, &m); err != nil {
 				return fmt.Errorf("line %d: %v", in.N, err)
@@ -50,6 +58,14 @@ func replay(in *core.Lines, args []string, seed int64, sum *core.Summary) error 
 				}
 			}
 			delete(pending, m.R)
+		case probe.Meta == "lapack":
+			var m lapackMeta
+			if err := json.Unmarshal(line, &m); err != nil {
+				return fmt.Errorf("line %d: %v", in.N, err)
+			}
+			for _, cl := range m.Clauses {
+				st.lapackClauses[m.R+"|"+cl] = true
+			}
 		case line[0] == '[':
 			var fam string
 			var head []json.RawMessage
@@ -64,23 +80,20 @@ func replay(in *core.Lines, args []string, seed int64, sum *core.Summary) error 
 			if err := runBlas(m, raw, salt, only, sum, st); err != nil {
 				return fmt.Errorf("line %d: %v", in.N, err)
 			}
-		default:
+		case probe.Kind == "blas":
 			var s soloCase
 			if err := json.Unmarshal(line, &s); err != nil {
 				return fmt.Errorf("line %d: %v", in.N, err)
 			}
-			switch s.Kind {
-			case "blas":
-				if err := runBlas(&s.Meta, s.Case, s.Salt, only, sum, st); err != nil {
-					return fmt.Errorf("line %d: %v", in.N, err)
-				}
-			case "lapack":
-				if err := runLapack(raw, salt, sum, st); err != nil {
-					return fmt.Errorf("line %d: %v", in.N, err)
-				}
-			default:
-				return fmt.Errorf("line %d: unknown kind %q", in.N, s.Kind)
+			if err := runBlas(&s.Meta, s.Case, s.Salt, only, sum, st); err != nil {
+				return fmt.Errorf("line %d: %v", in.N, err)
 			}
+		case probe.Kind == "lapack":
+			if err := runLapack(raw, salt, sum, st); err != nil {
+				return fmt.Errorf("line %d: %v", in.N, err)
+			}
+		default:
+			return fmt.Errorf("line %d: unknown line kind", in.N)
 		}
 	}
 	if len(pending) > 0 {
@@ -112,6 +125,7 @@ func replay(in *core.Lines, args []string, seed int64, sum *core.Summary) error 
 	}
 	sum.Count("either_returned", st.eitherOK)
 	sum.Count("either_panicked", st.eitherPan)
+	sum.Count("no_expectation", st.unspec)
 	sum.Count("distinct_gonum_routines", len(st.routines))
 	sum.Count("sole_clause_pairs_hit", len(st.sole))
 	names := make([]string, 0, len(st.routines))
